@@ -1,0 +1,52 @@
+//go:build verif
+
+package linker
+
+import (
+	"os"
+	"path/filepath"
+)
+
+// VerifLinkerReusable is the decision PatchLinker makes under the lock: is the cached linker reused?
+// It sets up a cache directory with the given stamp file content (nil: no file) and a linker binary of the given
+// size (negative: no file) and runs the real checkVersion and fileExists on it.
+func VerifLinkerReusable(stamp []byte, binSize int, goVersion, patchesVer string) (bool, error) {
+	dir, err := os.MkdirTemp("", "verif-linker")
+	if err != nil {
+		return false, err
+	}
+	defer os.RemoveAll(dir)
+	linkPath := filepath.Join(dir, "link")
+	if binSize >= 0 {
+		if err := os.WriteFile(linkPath, make([]byte, binSize), 0o777); err != nil {
+			return false, err
+		}
+	}
+	if stamp != nil {
+		if err := os.WriteFile(linkPath+versionExt, stamp, 0o666); err != nil {
+			return false, err
+		}
+	}
+	ok, err := checkVersion(linkPath, goVersion, patchesVer)
+	if err != nil {
+		return false, err
+	}
+	return ok && fileExists(linkPath), nil
+}
+
+// VerifWriteVersion runs the real writeVersion for a linker binary of the given size and returns the stamp file.
+func VerifWriteVersion(binSize int, goVersion, patchesVer string) ([]byte, error) {
+	dir, err := os.MkdirTemp("", "verif-linker")
+	if err != nil {
+		return nil, err
+	}
+	defer os.RemoveAll(dir)
+	linkPath := filepath.Join(dir, "link")
+	if err := os.WriteFile(linkPath, make([]byte, binSize), 0o777); err != nil {
+		return nil, err
+	}
+	if err := writeVersion(linkPath, goVersion, patchesVer); err != nil {
+		return nil, err
+	}
+	return os.ReadFile(linkPath + versionExt)
+}
